@@ -36,7 +36,7 @@ RULE = (
 EXHAUSTIVE_SUBSPACES = ["all 4 (fold, optimize) combinations (rotating with the case index, all four for every 4th case)", "full-domain enumeration for discrete circuits with <= 4096 assignments"]
 ASSUMPTIONS = ["binomial inputs have no symbolic integration rule: Z by IntegrateQuery and brute force only", "Gaussian circuits: Z by symbolic integrate and IntegrateQuery (closed form) only"]
 FLOOR = {"sum:mixing>1": 1, "sum:arity>1": 1, "alg:RandomBinaryTree": 1, "alg:LinearTree": 1, "alg:QuadGraph": 1, "alg:QuadTree": 1, "alg:PoonDomingos": 1,
-         "alg:ChowLiuTree": 1, "alg:FullyFactorized": 1, "tmpl:image_data": 1, "tmpl:tabular_data": 1, "tmpl:hmm": 1, "tmpl:fully_factorized": 1,
+         "alg:ChowLiuTree": 1, "alg:FullyFactorized": 1, "tmpl:image": 1, "tmpl:tabular": 1, "tmpl:hmm": 1, "tmpl:ff": 1,
          "tmpl:cp": 1, "tmpl:tucker": 1, "sp:cp": 1, "sp:cp-t": 1, "sp:tucker": 1, "after-updates": 1, "route:integrate": 1, "route:query": 1, "route:brute": 1,
          "Z_checks": 100}
 
